@@ -29,13 +29,13 @@ LEVEL_TEXT = (
 LEVEL_NOTE = "The expected chain comes from CPython's own frame objects captured on the same line; the depth limit is read from uberjob (MAX_TRACEBACK_DEPTH)."
 TECHNIQUE = "property-based testing over generated programs: differential comparison of symbolic tracebacks with an independent sys._getframe walk"
 RULE = (
-    "Hypothesis draws (site kind in 10 kinds, nesting depth 0..8, per-function blank-line padding, worker count, "
+    "Hypothesis draws (site kind in 12 kinds, optionally a second harmless route to the same site line before or after, nesting depth 0..8, per-function blank-line padding, worker count, "
     "scheduler). Non-trivial = depth >= 1 or a site kind other than plan.call. Distinct = SHA-1 of the case."
 )
 ASSUMPTIONS = ["failures of the gathered *output* of run and modified-time failures on registered Literals are outside the statement"]
 
 KINDS = ["call", "implicit_gather", "gather", "unpack", "add_write", "add_read", "source_read", "mt_stored",
-         "mt_source", "call_kw"]
+         "mt_source", "call_kw", "add_read_fresh", "add_read_fresh_elsewhere"]
 
 
 class FailStore(ValueStore):
@@ -91,6 +91,12 @@ SITE = {
                   "c.registry.add(c.node, c.FailStore('write')); c.frames = c.walk(sys._getframe())"],
     "add_read": ["c.node = c.plan.call(c.returns_list)",
                  "c.registry.add(c.node, c.FailStore('read')); c.frames = c.walk(sys._getframe())"],
+    # the store already holds an up-to-date value (history: an earlier run filled it): only the read runs
+    "add_read_fresh": ["c.node = c.plan.call(c.returns_list)",
+                       "c.registry.add(c.node, c.FailStore('read', True)); c.frames = c.walk(sys._getframe())"],
+    # ... and the node itself was created somewhere else (another function, another line)
+    "add_read_fresh_elsewhere": ["c.node = make_node(c)",
+                                 "c.registry.add(c.node, c.FailStore('read', True)); c.frames = c.walk(sys._getframe())"],
     "source_read": ["c.node = c.registry.source(c.plan, c.FailStore('read', True)); c.frames = c.walk(sys._getframe())"],
     "mt_stored": ["c.node = c.plan.call(c.returns_list); c.frames = c.walk(sys._getframe())",
                   "c.registry.add(c.node, c.FailStore('mt'))"],
@@ -106,6 +112,8 @@ def source_text(case):
     def pad(i):
         lines.extend([""] * pads[i % len(pads)])
 
+    lines.append("def make_node(c):")
+    lines.append("    return c.plan.call(c.returns_list)")
     pad(0)
     lines.append("def site(c):")
     for ln in SITE[case["kind"]]:
@@ -119,10 +127,30 @@ def source_text(case):
             lines.append("    x = 1")
         lines.append(f"    {prev}(c)")
         prev = name
+    # a second route to the same site line (different enclosing frames), harmless at run time: whatever
+    # uberjob remembers per code location must not leak from one route into the other
+    decoy = case.get("decoy")
+    alt = "site"
+    if decoy is not None:
+        for i in range(1, decoy["depth"] + 1):
+            pad(i + 1)
+            lines.append(f"def alt_{i}(c):")
+            lines.append(f"    {alt}(c)")
+            alt = f"alt_{i}"
     pad(d + 1)
     lines.append("def entry(c):")
     lines.append("    try:")
+    if decoy is not None and decoy["first"]:
+        lines.append("        c.decoy(True)")
+        lines.append(f"        {alt}(c)")
+        lines.append("        c.decoy(False)")
     lines.append(f"        {prev}(c)")
+    if decoy is not None and not decoy["first"]:
+        lines.append("        c.save()")
+        lines.append("        c.decoy(True)")
+        lines.append(f"        {alt}(c)")
+        lines.append("        c.decoy(False)")
+        lines.append("        c.restore()")
     lines.append("    except BaseException as e:")
     lines.append("        c.error = e")
     lines.append("    finally:")
@@ -130,13 +158,43 @@ def source_text(case):
     return "\n".join(lines) + "\n"
 
 
+class OkStore(ValueStore):
+    def read(self):
+        return 5
+
+    def write(self, v):
+        pass
+
+    def get_modified_time(self):
+        import datetime as dt
+        return dt.datetime(2020, 1, 1)
+
+
+def ok_fn(*a, **k):
+    return 0
+
+
 class Ctx:
-    pass
+    def decoy(self, on):
+        if on:
+            self._real = (self.boom, self.FailStore)
+            self.boom, self.FailStore = ok_fn, (lambda *a, **k: OkStore())
+        else:
+            self.boom, self.FailStore = self._real
+
+    def save(self):
+        self._saved = (self.node, self.outer, self.frames)
+
+    def restore(self):
+        self.node, self.outer, self.frames = self._saved
 
 
 @st.composite
 def cases(draw):
-    return {"kind": draw(st.sampled_from(KINDS)), "depth": draw(st.integers(0, 8)),
+    decoy = None
+    if draw(st.booleans()):
+        decoy = {"depth": draw(st.integers(0, 4)), "first": draw(st.sampled_from([True, True, False]))}
+    return {"kind": draw(st.sampled_from(KINDS)), "depth": draw(st.integers(0, 8)), "decoy": decoy,
             "pads": draw(st.lists(st.integers(0, 3), min_size=1, max_size=5)),
             "workers": draw(st.integers(1, 3)), "scheduler": draw(st.sampled_from([None, "default", "random"]))}
 
@@ -161,7 +219,8 @@ def check_case(ctx, case, record=True):
     if record:
         ctx.case(case, case["depth"] >= 1 or case["kind"] != "call",
                  [f"kind:{case['kind']}", f"depth:{case['depth']}",
-                  "truncated" if case["depth"] + 2 > MAX_TRACEBACK_DEPTH + 1 else "not_truncated"])
+                  "truncated" if case["depth"] + 2 > MAX_TRACEBACK_DEPTH + 1 else "not_truncated"]
+                 + (["second_route_to_site"] if case.get("decoy") else []))
     d = tempfile.mkdtemp(prefix="c19-")
     try:
         path = os.path.join(d, "user_module.py")
@@ -191,7 +250,8 @@ def check_case(ctx, case, record=True):
         kw = dict(progress=None, max_workers=case["workers"])
         if case["scheduler"]:
             kw["scheduler"] = case["scheduler"]
-        if case["kind"] in ("add_write", "add_read", "source_read", "mt_stored", "mt_source"):
+        if case["kind"] in ("add_write", "add_read", "source_read", "mt_stored", "mt_source", "add_read_fresh",
+                            "add_read_fresh_elsewhere"):
             kw["registry"] = c.registry
         try:
             uberjob.run(c.plan, output=out, **kw)
@@ -203,6 +263,7 @@ def check_case(ctx, case, record=True):
             ctx.violation(case, "run did not fail")
         call = err.call
         want_fn = {"call": boom, "call_kw": boom, "add_write": FailStore.write, "add_read": FailStore.read,
+                   "add_read_fresh": FailStore.read, "add_read_fresh_elsewhere": FailStore.read,
                    "source_read": FailStore.read, "mt_stored": returns_list}.get(case["kind"])
         if want_fn is not None and call.fn is not want_fn:
             ctx.violation(case, f"CallError.call.fn is {call.fn!r}, expected {want_fn!r}")
